@@ -81,6 +81,29 @@ def run_sessions(args, fd):
              len(set(kinds)))
 
 
+def run_big(args, fd):
+    """One call per workload with lengths / cell counts where products of
+    sizes leave 32-bit range."""
+    from hysim.engines import c05_session as S
+    seed = args["seed"]
+    entries = S.big_catalogue()
+    for w in args["big"]:
+        rs = np.random.RandomState((seed * 7919 + w * 104729 + 17) % (2 ** 31))
+        name, fn = entries[rs.randint(len(entries))]
+        n = int(S.BIG_N[rs.randint(len(S.BIG_N))])
+        emit(fd, "BIG", w, name, n)
+        faulthandler.dump_traceback_later(args.get("watchdog", 600), exit=True)
+        try:
+            with warnings.catch_warnings(), np.errstate(all="ignore"):
+                warnings.simplefilter("ignore")
+                fn(rs, n)
+            out = "ok"
+        except Exception as ex:
+            out = "raise:" + type(ex).__name__
+        faulthandler.cancel_dump_traceback_later()
+        emit(fd, "BIGRES", w, name, n, out)
+
+
 def run_alloc(args, fd):
     """Allocation-fault enumeration on metrics.crps / metrics.dscore."""
     import c_hydrodiy_stat
@@ -203,6 +226,8 @@ def main():
     faulthandler.enable()
     if args["mode"] == "sessions":
         run_sessions(args, fd)
+    elif args["mode"] == "big":
+        run_big(args, fd)
     else:
         run_alloc(args, fd)
     os.close(fd)
